@@ -1,257 +1,21 @@
 /-
   Line-protocol driver for the executable (Float) instantiation of the model.
-  One request per input line, one reply per output line.  Floats travel as the decimal value of
-  their IEEE-754 bit pattern (exact in both directions).
+  One request per input line, one reply per output line.  Handlers live in MellonDriver/*.
 -/
-import MellonModel
-open Mellon
+import MellonDriver.Core
+import MellonDriver.Kernel
+import MellonDriver.Cond
+open Mellon Drv
 
-/-! ### token reader -/
-
-structure Rd where
-  toks : Array String
-  pos : Nat := 0
-
-abbrev P := StateT Rd (Except String)
-
-def tok : P String := do
-  let s ← get
-  if h : s.pos < s.toks.size then
-    set { s with pos := s.pos + 1 }
-    return s.toks[s.pos]
-  else throw "eof"
-
-def pNat : P Nat := do
-  let t ← tok
-  match t.toNat? with
-  | some n => return n
-  | none => throw s!"nat? {t}"
-
-def pInt : P Int := do
-  let t ← tok
-  match t.toInt? with
-  | some n => return n
-  | none => throw s!"int? {t}"
-
-def pOptInt : P (Option Int) := do
-  let t ← tok
-  if t == "N" then return none
-  match t.toInt? with
-  | some n => return some n
-  | none => throw s!"optint? {t}"
-
-def pFlt : P Float := do
-  let n ← pNat
-  return Float.ofBits n.toUInt64
-
-def pBool : P Bool := do
-  let t ← tok
-  if t == "T" then return true else if t == "F" then return false else throw s!"bool? {t}"
-
-def pVec (n : Nat) : P (Vector Float n) := do
-  let mut a : Array Float := Array.mkEmpty n
-  for _ in [0:n] do
-    a := a.push (← pFlt)
-  if h : a.size = n then return ⟨a, h⟩ else throw "vec size"
-
-def pMat (n m : Nat) : P (Mat Float n m) := do
-  let mut a : Array (Vector Float m) := Array.mkEmpty n
-  for _ in [0:n] do
-    a := a.push (← pVec m)
-  if h : a.size = n then return ⟨a, h⟩ else throw "mat size"
-
-def pList {β : Type} (p : P β) : P (List β) := do
-  let k ← pNat
-  let mut l : List β := []
-  for _ in [0:k] do
-    l := (← p) :: l
-  return l.reverse
-
-def pAD : P ActiveDims := do
-  let t ← tok
-  match t with
-  | "AN" => return .none
-  | "AI" => return .idx (← pInt)
-  | "AL" => return .list (← pList pInt)
-  | "AM" => return .mask (← pList pBool)
-  | "AS" => return .slice (← pOptInt) (← pOptInt) (← pOptInt)
-  | _ => throw s!"ad? {t}"
-
-partial def pCov : P (Cov Float) := do
-  let t ← tok
-  match t with
-  | "M32" => return .matern32 (← pFlt) (← pAD)
-  | "M52" => return .matern52 (← pFlt) (← pAD)
-  | "EQ" => return .expquad (← pFlt) (← pAD)
-  | "EX" => return .exponential (← pFlt) (← pAD)
-  | "RQ" => return .ratquad (← pFlt) (← pFlt) (← pAD)
-  | "LIN" => return .linear (← pFlt) (← pAD)
-  | "ADD" => return .add (← pCov) (← pCov) (← pAD)
-  | "ADDC" => return .addC (← pCov) (← pFlt) (← pAD)
-  | "MUL" => return .mul (← pCov) (← pCov) (← pAD)
-  | "MULC" => return .mulC (← pCov) (← pFlt) (← pAD)
-  | "POW" => return .pow (← pCov) (← pFlt) (← pAD)
-  | _ => throw s!"cov? {t}"
-
-/-! ### output helpers -/
-
-def fb (x : Float) : String := toString x.toBits.toNat
-
-def outVec {n : Nat} (v : Vector Float n) : String :=
-  " ".intercalate (v.toList.map fb)
-
-def outMat {n m : Nat} (A : Mat Float n m) : String :=
-  " ".intercalate (A.toList.map outVec)
-
-def errName : CondErr → String
-  | .noUncertaintyInput => "ValueError:noUncertaintyInput"
-  | .bothSigmaAndFactor => "ValueError:bothSigmaAndFactor"
-  | .notPosDef => "ValueError:notPosDef"
-  | .noCovariance => "ValueError:noCovariance"
-  | .noUncertainty => "ValueError:noUncertainty"
-  | .internal => "Internal"
-
-def pSigma (n : Nat) : P (Sigma Float n) := do
-  let t ← tok
-  match t with
-  | "SN" => return .none
-  | "SS" => return .scalar (← pFlt)
-  | "SV" => return .vec (← pVec n)
-  | _ => throw s!"sigma? {t}"
-
-def pOptMat (n m : Nat) : P (Option (Mat Float n m)) := do
-  let t ← tok
-  match t with
-  | "N" => return none
-  | "Y" => return some (← pMat n m)
-  | _ => throw s!"optmat? {t}"
-
-def pOptAny : P (Option (AnyMat Float)) := do
-  let t ← tok
-  match t with
-  | "N" => return none
-  | "Y" =>
-    let r ← pNat
-    let c ← pNat
-    return some ⟨r, c, ← pMat r c⟩
-  | _ => throw s!"optany? {t}"
-
-/-- Everything the harness asks of a built predictor state, for query matrix `Xq`. -/
-def evalState {m d c q : Nat} (s : CondState Float m d c) (Xq : Mat Float q d) : String :=
-  let mean := outMat (s.mean Xq)
-  let part (name : String) (r : Except CondErr String) : String :=
-    match r with
-    | .ok v => s!"{name} ok {v}"
-    | .error e => s!"{name} {errName e}"
-  let w := outMat s.weights
-  s!"ok | weights {w} | mean {mean} | " ++
-    part "var" ((s.variance Xq).map outVec) ++ " | " ++
-    part "cov" ((s.covariance Xq).map outMat) ++ " | " ++
-    part "mvar" ((s.meanVariance Xq).map outVec) ++ " | " ++
-    part "mcov" ((s.meanCovariance Xq).map outMat) ++ " | " ++
-    part "unc" ((s.uncertainty Xq).map outMat) ++ " | " ++
-    part "uncd" ((s.uncertaintyDiag Xq).map outVec)
+/-- All handlers, tried in order. -/
+def handlers : List Handler := [handleKernel, handleCond]
 
 def handle : P String := do
   let op ← tok
-  match op with
-  | "ping" => return "pong"
-  | "cov" =>
-    let c ← pCov
-    let n ← pNat; let d ← pNat
-    let X ← pMat n d
-    let m ← pNat
-    let Y ← pMat m d
-    if !c.WF d then return "err wf"
-    return "ok " ++ outMat (gram c X Y)
-  | "covdiag" =>
-    let c ← pCov
-    let n ← pNat; let d ← pNat
-    let X ← pMat n d
-    if !c.WF d then return "err wf"
-    return "ok " ++ outVec (gramDiag c X)
-  | "kgrad" =>
-    let c ← pCov
-    let n ← pNat; let d ← pNat
-    let X ← pMat n d
-    let m ← pNat
-    let Y ← pMat m d
-    if !c.WF d then return "err wf"
-    let rows := (List.range n).map fun i => (List.range m).map fun j =>
-      " ".intercalate ((c.kGrad (X.row i) (Y.row j)).map fb)
-    return "ok " ++ " ".intercalate (rows.map (" ".intercalate ·))
-  | "dist" =>
-    let n ← pNat; let d ← pNat
-    let X ← pMat n d
-    let m ← pNat
-    let Y ← pMat m d
-    let D : Mat Float n m := Mat.ofFn fun i j => distance (X.row i) (Y.row j)
-    return "ok " ++ outMat D
-  | "chol" =>
-    let n ← pNat
-    let A ← pMat n n
-    match chol? A with
-    | some L => return "ok " ++ outMat L
-    | none => return "notpd"
-  | "fullcond" =>
-    let c ← pCov
-    let n ← pNat; let d ← pNat
-    let X ← pMat n d
-    let cc ← pNat
-    let Y ← pMat n cc
-    let mu ← pFlt
-    let Lg ← pOptMat n n
-    let sigma ← pSigma n
-    let jit ← pFlt
-    let ycf ← pOptAny
-    let yIsMean ← pBool
-    let withUnc ← pBool
-    let q ← pNat
-    let Xq ← pMat q d
-    if !c.WF d then return "err wf"
-    match fullCondInit c X Y mu Lg sigma jit ycf yIsMean withUnc with
-    | .error e => return errName e
-    | .ok s => return evalState s Xq
-  | "lmcond" =>
-    let c ← pCov
-    let n ← pNat; let d ← pNat
-    let X ← pMat n d
-    let m ← pNat
-    let Xu ← pMat m d
-    let cc ← pNat
-    let Y ← pMat n cc
-    let mu ← pFlt
-    let sigma ← pSigma m
-    let jit ← pFlt
-    let ycf ← pOptAny
-    let yIsMean ← pBool
-    let withUnc ← pBool
-    let q ← pNat
-    let Xq ← pMat q d
-    if !c.WF d then return "err wf"
-    match lmCondInit c X Xu Y mu sigma jit ycf yIsMean withUnc with
-    | .error e => return errName e
-    | .ok s => return evalState s Xq
-  | "lmcholcond" =>
-    let c ← pCov
-    let m ← pNat; let d ← pNat
-    let Xu ← pMat m d
-    let cc ← pNat
-    let Z ← pMat m cc
-    let mu ← pFlt
-    let nObs ← pNat
-    let Lg ← pOptMat m m
-    let sigma ← pSigma m
-    let jit ← pFlt
-    let yIsMean ← pBool
-    let withUnc ← pBool
-    let q ← pNat
-    let Xq ← pMat q d
-    if !c.WF d then return "err wf"
-    match lmCholCondInit c Xu Z mu nObs Lg sigma jit yIsMean withUnc with
-    | .error e => return errName e
-    | .ok s => return evalState s Xq
-  | _ => throw s!"unknown op {op}"
+  if op == "ping" then return "pong"
+  match handlers.findSome? (fun h => h op) with
+  | some p => p
+  | none => throw s!"unknown op {op}"
 
 def handleLine (line : String) : String :=
   let toks := (line.splitOn " ").filter (· ≠ "") |>.toArray
@@ -262,8 +26,7 @@ def handleLine (line : String) : String :=
 partial def loop (hin hout : IO.FS.Stream) : IO Unit := do
   let line ← hin.getLine
   if line.isEmpty then return ()
-  let line := line.trimRight
-  hout.putStrLn (handleLine line)
+  hout.putStrLn (handleLine (line.trimAsciiEnd.toString))
   hout.flush
   loop hin hout
 
